@@ -220,6 +220,7 @@ pub fn execute(plan: CheckPlan) -> i32 {
                             detail: format!("{how2} (job {ji} kind {} index {index})", spec.kind),
                             check: spec.check.clone(),
                             scenario: Some(sc),
+                            job_index: Some(ji),
                         });
                     }
                     JobOutcome::Done(r) => {
@@ -241,6 +242,7 @@ pub fn execute(plan: CheckPlan) -> i32 {
                     detail: format!("{how} (job {ji} kind {} index {index}{})", spec.kind, if index == PREP { " = preparation" } else { "" }),
                     check: spec.check.clone(),
                     scenario: None,
+                    job_index: Some(ji),
                 });
             }
         }
@@ -256,7 +258,7 @@ pub fn execute(plan: CheckPlan) -> i32 {
             *e += 1;
         } else {
             new_violations += 1;
-            let job = plan.jobs.iter().find(|j| j.check == v.check);
+            let job = v.job_index.and_then(|i| plan.jobs.get(i)).or_else(|| plan.jobs.iter().find(|j| j.check == v.check));
             // minimise the first few reports (host ops, environment plan, limits) before writing them
             let (v, spent) = if new_violations <= 4 { crate::minimise::minimise(v, &plan.opts) } else { (v.clone(), 0) };
             let v = &v;
